@@ -701,6 +701,8 @@ func c13(c *Ctx) (*report.Result, error) {
 	}
 	res.RuleDoc["O13.14"] = "a decoded history blob is walked, whoever asks: in translateOneDataBlob no return that can report success is reachable after the decode without the call of the visitor parameter - the function serves the namespace translator, the search-attribute translator and the access check, so a short cut that is right for one of them (a batch of skip-listed event types has no namespace) leaves the keys of the others unmapped, in both directions"
 	checkDecodedBlobAlwaysWalked(c, res, "O13.14")
+	res.RuleDoc["O13.16"] = "only a real intra-proxy stream goes untranslated (same analysis as O12.15): IsIntraProxy requires the exact marker value"
+	checkIntraProxyMarkerExact(c, res, "O13.16")
 	res.RuleDoc["O13.13"] = "a message is mapped once on its way through a deployment (same analysis as O12.13): intra-proxy streams reach their handler without the translating wrapper"
 	checkIntraProxyStreamsNotTranslated(c, res, "O13.13")
 	res.RuleDoc["O13.11"] = "what a translator mapped stays mapped: between its arrival and its hand-over a message is written by the translators and by nobody else - in Intercept and the stream wrapper's RecvMsg / SendMsg no call that receives the message can overwrite it (proto.Reset / Merge / Unmarshal, the message's own Reset, or a module function doing that); a roll-back to a snapshot taken before the translators ran hands the request on with the names of the side it came from"
